@@ -24,6 +24,11 @@ CLAIMED = {
         note="Reals in the theorems; log/exp enter as arguments (shared libm), not axioms; the first iteration of a daughter cell and the volume at the moment of removal are not observable without hooks (checked through the imposed scaling instead).",
         technique="Coq proof over R of a hand-written Gallina model + bit-exact recomputation of the recurrences along the implementation's trajectory + law oracle",
         design="§6 C04"),
+    "C12": dict(
+        text="Theorems over R about the Gallina transcription of the geometric queries of cell.cpp (Geometry.v) and the surface combinatorics (Mesh.v): reported volume = |sum det|/6; invariant under translation (closed surface: half-edge permutation argument), every orthogonal map, triangle permutation, cyclic shifts, node renumbering, cubic under scaling; area = sum of triangle areas with the same invariances (quadratic under scaling, unchanged by winding flips); centroid = area-weighted mean, equivariant under rigid motions; bounding box tight (all live nodes inside, every bound attained); cached normal = unit vector of the winding's cross product; after the orientation repair the signed volume is non-negative and only windings changed. The same Gallina functions at binary64, including the flood-fill orientation repair, are compared bit-for-bit with initialize_cell_properties and all getters on meshes and nine metamorphic variants each; an exact rational oracle and the metamorphic relations judge the implementation's outputs.",
+        note="Reals in the theorems; 'enclosed volume' is the signed-volume formula (its meaning as a volume rests on the surface being closed and embedded); that the flood fill yields a globally consistent orientation is validated by the correspondence and the oracle, not proved; gte::SymmetricEigensolver3x3 (longest axis) is not modelled: judged by the rotation oracle on elongated cells only; the absolute-coordinate formulas lose (distance/size)^3*eps in relative accuracy, tolerances are scaled accordingly.",
+        technique="Coq proof over R of a hand-written Gallina model + bit-exact differential correspondence + exact rational and metamorphic oracle",
+        design="§6 C12"),
 }
 
 PENDING_REASON = "not claimed yet: model, theorems and correspondence for this property are still being built (see DESIGN.md §9 staging); nothing is asserted about it"
